@@ -370,6 +370,6 @@ m1c! {
     c12_m1c_nonconforming => (24; "\'\'\'\n a\nb\n \'\'\'", false, 2, 2, false),
     c12_m1c_text_before_closing_quotes => (24; "\'\'\'\n a\n b\'\'\'", false, 2, 2, false),
     c12_m1c_ignored_untouched => (24; "\'\'\'\n  ab\n  \'\'\'", false, 2, 4, false),
-    c12_m1c_ideographic_space_base => (30; "\'\'\'\n\u{3000}a\r\u{3000} b\n\u{3000}\'\'\'", false, 2, 2, false),
+    c12_m1c_u3000_base => (30; "\'\'\'\n\u{3000}a\r\u{3000} b\n\u{3000}\'\'\'", false, 2, 2, false),
     c12_m1c_five_quotes => (30; "\'\'\'\'\'\n a\'\'\'\n \'\'\'\'\'", false, 2, 2, false),
 }
